@@ -90,8 +90,10 @@ class Pool:
                     obj = j
                     break
             h = hash(o)
-            if isinstance(o, int) and not isinstance(o, bool) and h == o:
-                hid = o
+            if (isinstance(o, int) and not isinstance(o, bool) and h == o) or abs(h) < 1_000_000:
+                # small hash values are kept as they are (hash(i) == i for small ints, hash("") == 0):
+                # they can coincide with explicit integer ids, and must then coincide in the model too
+                hid = h
             else:
                 if h not in first_with_hash:
                     first_with_hash[h] = i
